@@ -11,6 +11,7 @@ package xsurveyor
 //@   lock Mutex level 20
 //@   guarded_by Mutex: closed pipes recvQLen sendQLen recvExpire recvQ sizeQ
 //@   immutable: closeQ
+//@   elem_invariant recvQ: !shared(elem)
 //@
 //@ func (*socket).RemovePipe
 //@   assumes cast("*pipe", pp.GetPrivate()).s == s
